@@ -44,6 +44,13 @@ def make_battery(limit_per_root=7):
             n += 1
             if n >= limit_per_root:
                 break
+    # union-heavy samples whose hooks have to choose an alternative by looking into the value
+    loc = {"uri": "file:///a"}
+    out.append(("WorkspaceSymbolResponse", {"id": 1, "jsonrpc": "2.0", "result": [{"name": "n", "kind": 1, "location": loc}]}))
+    out.append(("WorkspaceSymbolResponse", {"id": 1, "jsonrpc": "2.0", "result": [{"name": "n", "kind": 1, "location": {"uri": "file:///a", "range": {"start": {"line": 0, "character": 0}, "end": {"line": 0, "character": 1}}}}, {"name": "m", "kind": 2, "location": loc, "data": 1}]}))
+    out.append(("CodeActionResponse", {"id": 1, "jsonrpc": "2.0", "result": [{"title": "t", "command": {"title": "t", "command": "c"}}, {"title": "t", "command": "c"}]}))
+    out.append(("ServerCapabilities", {"monikerProvider": {"documentSelector": None}, "textDocumentSync": 1, "hoverProvider": {"workDoneProgress": True}}))
+    out.append(("Hover", {"contents": ["doc", {"language": "python", "value": "x"}]}))
     # invalid inputs (must raise on every converter)
     out.append(("Position", {"line": -1, "character": 0}))
     out.append(("Position", {"line": 0}))
